@@ -6,12 +6,15 @@ import sys
 pid = sys.argv[1]
 round3 = len(sys.argv) > 2 and sys.argv[2] == 'callers'
 round4 = len(sys.argv) > 2 and sys.argv[2] == 'stateful'
+round6 = len(sys.argv) > 2 and sys.argv[2] == 'recovery'
 wt = '/tmp/wt-%s' % pid
 for line in open('/verif/properties.jsonl'):
     p = json.loads(line)
     if p['id'] == pid:
         break
 extra = (" At least one of the two changes must be made in a module OTHER than the files the property is anchored in: a caller, helper or sibling module through which the property is also observable (for instance command line tools under edxml/cli, event collections, the transcoder classes and their test harnesses, the miner's parsers, logging or utility modules), so that code paths beyond the central one are covered." if round3 else "")
+if round6:
+    extra = (" At least one of the two changes must only manifest after something went wrong or was refused earlier on the same objects: an operation that raised an EDXML error half way (an invalid event, an incompatible definition, a rejected record, malformed input) and left partial state behind, or an object (writer, parser, validator, ontology, event, collection, mediator, template) that keeps being used after it reported an error, so that later VALID operations misbehave. The other change must keep the most common usage correct and manifest only under a combination of two unusual circumstances (a non-default option or constructor argument, a particular order of API calls, a boundary value such as empty / maximum length / zero / non-BMP characters).")
 if round4:
     extra = (" At least one of the two changes must only manifest through state carried across operations or through two cooperating sites: a cache, memo, counter or flag that survives between calls, an object reused across documents, sessions or ontologies, an upgrade or mutation that happens between two uses, or a helper whose changed contract only matters to one distant caller. The other change should be triggered by an unusual but legal input (boundary values, rarely used options or constructor arguments, rarely combined features) on a code path that the obvious usage does not take.")
 print(f"""You are working in a scratch git worktree of the pure-Python package edxml/sdk at {wt} (a detached checkout of the project's HEAD). Work ONLY inside {wt}. Do not read, list or modify /repo or /verif or any other /tmp/wt-* directory. Never use `git stash` (the stash is shared between worktrees); to undo a change use `git apply -R` or `git checkout -- <file>`.
